@@ -5,6 +5,7 @@ pub mod common;
 pub mod judge;
 pub mod lang;
 pub mod lang2;
+pub mod robust;
 pub mod source;
 pub mod staged;
 pub mod vm;
@@ -22,6 +23,9 @@ pub fn dispatch(ctx: &Ctx, rep: &mut Report) -> bool {
         "C07" => lang2::c07(ctx, rep),
         "C06" => staged::c06(ctx, rep),
         "C06calibrate" => staged::calibrate(ctx, rep),
+        "C10" => robust::c10(ctx, rep),
+        "C11" => robust::c11(ctx, rep),
+        "C16" => robust::c16(ctx, rep),
         "C05" => vm::c05(ctx, rep),
         "C08" => vm::c08(ctx, rep),
         "C02" => bytecode::c02(ctx, rep),
